@@ -8,6 +8,8 @@ import OpcuaModel.Model.SrvSec
     opn <policy> <cert> <body> <ver> <tok> <mode> <p:m> … → accept <policy> <mode> | reject
           cert ∈ absent|unparsable|nonrsa|badsize|good, body ∈ plain|secured|garbage,
           the trailing pairs are the server's enabled set (which the code ignores)
+    renew <p1> <m1> <p2> <m2> <p:m> …           → accept <policy> <mode> | reject   (second OPN of a conforming client)
+    classrenew <policy> <mode> <p:m> …          → enabled | C30.renew-switches-security
     class <policy> <mode> <p:m> …               → enabled | C30.<signature>
   Policy names may carry the URI prefix; `-` is the empty string.
 -/
@@ -64,6 +66,23 @@ def handle : List String → String
       | .accept s => s!"accept {s.policy} {s.mode}"
       | .reject => "reject"
     | _, _, _, _, _, _ => "bad-op"
+  | "renew" :: p1 :: m1 :: p2 :: m2 :: rest =>
+    -- a conforming client opens with (p1, m1) and then renews with (p2, m2): outcome of the renewal
+    match m1.toNat?, m2.toNat?, parsePairs rest with
+    | some a, some b, some ps =>
+      let mk (p : String) (m : Nat) : Opn :=
+        let q := normalize (unDash p)
+        if q == policyNone then { policy := q, cert := .absent, body := .plain, mode := m }
+        else { policy := q, cert := .good, body := .secured, mode := m }
+      match opnSeq ⟨secsOf ps, []⟩ (some freshChan) [mk p1 a, mk p2 b] with
+      | [_, .accept s] => s!"accept {s.policy} {s.mode}"
+      | [_, .reject] => "reject"
+      | _ => "bad-op"
+    | _, _, _ => "bad-op"
+  | "classrenew" :: p :: m :: rest =>
+    match m.toNat?, parsePairs rest with
+    | some mode, some ps => classifyRenew ⟨secsOf ps, []⟩ ⟨normalize (unDash p), mode⟩
+    | _, _ => "bad-op"
   | "class" :: p :: m :: rest =>
     match m.toNat?, parsePairs rest with
     | some mode, some ps => classify ⟨secsOf ps, []⟩ ⟨normalize (unDash p), mode⟩
